@@ -15,7 +15,7 @@ import (
 func init() { Registry["C18"] = C18 }
 
 var c18Digits = []string{"12345", "123456", "1234567"}
-var c18K = []string{"", "-chain", "-chain0", "-chain00", "-chain1", "-chain01", "-chain2", "-chain3", "-chain9", "-chain10", "-chain255", "-chain256", "-chain300", "-chain65536", "-chain18446744073709551616", "-chain-1", "-chain1x", "-CHAIN1", "-chain 1"}
+var c18K = []string{"", "-chain", "-chain0", "-chain00", "-chain1", "-chain01", "-chain2", "-chain3", "-chain9", "-chain10", "-chain010", "-chain08", "-chain012", "-chain0377", "-chain255", "-chain256", "-chain300", "-chain65536", "-chain18446744073709551616", "-chain-1", "-chain1x", "-CHAIN1", "-chain 1"}
 var c18Ext = []string{"", ".ra", ".ra.ra", ".raw", ".txt", ".RA", "xra", "_ra", "-ra", "ra", ".r", "."}
 var c18Deco = []string{"", " ", "./", "sub/"}
 
@@ -39,6 +39,18 @@ func refArg(arg string) (ok bool, file, id string, k int) {
 		file += ".ra"
 	}
 	return true, file, m[1], k
+}
+
+// the addressed rule has twelve chained links, so that offsets written with a leading zero (010, 012) can be told
+// from what another number base would make of them
+const c18ChainLen = 12
+
+func c18Chain() []string {
+	var c []string
+	for i := 1; i <= c18ChainLen; i++ {
+		c = append(c, fmt.Sprint("op", i))
+	}
+	return c
 }
 
 func token(name string) string {
@@ -87,7 +99,7 @@ func c18Tree() core.Tree {
 		t["regex-assembly/include/"+filepath.Base(name)] = "inc" + token(name) + "\n"
 	}
 	t["regex-assembly/include/inc.ra"] = "plaininclude\n"
-	t["rules/REQUEST-123-TEST.conf"] = rulesFile(ruleSpec{ID: "123456", Regex: "op0", Chain: []string{"op1", "op2", "op3"}}, ruleSpec{ID: "123457", Regex: "other"})
+	t["rules/REQUEST-123-TEST.conf"] = rulesFile(ruleSpec{ID: "123456", Regex: "op0", Chain: c18Chain()}, ruleSpec{ID: "123457", Regex: "other"})
 	return t
 }
 
@@ -191,7 +203,7 @@ func C18(r *core.Run) {
 					}
 				case "update":
 					conf := tree["rules/REQUEST-123-TEST.conf"]
-					if id == "123456" && k <= 3 {
+					if id == "123456" && k <= c18ChainLen {
 						want := strings.Replace(conf, fmt.Sprintf("\"@rx op%d\"", k), "\"@rx "+tok+"\"", 1)
 						got, _ := os.ReadFile(filepath.Join(sb, "rules/REQUEST-123-TEST.conf"))
 						if res.Exit != 0 || string(got) != want || len(changed) != 1 {
@@ -201,7 +213,7 @@ func C18(r *core.Run) {
 						bad("arg-resolution", "chain offset beyond the chain / unknown rule: must fail and change nothing")
 					}
 				case "compare":
-					if id == "123456" && k <= 3 {
+					if id == "123456" && k <= c18ChainLen {
 						if !strings.Contains(res.Stdout, tok) || !strings.Contains(res.Stdout, fmt.Sprintf("op%d ", k)) || len(changed) > 0 {
 							bad("arg-resolution", fmt.Sprintf("compare must show generated %s against current op%d", tok, k))
 						}
@@ -243,6 +255,7 @@ func C18(r *core.Run) {
 			// the inner root has no configuration file, the outer one has: everything, the configuration too, comes from the nearest root
 			"outer/regex-assembly/toolchain.yaml": "patterns:\n  anti_evasion:\n    unix: 'Q?'\n    windows: 'Q?'\n",
 			"outer/a/b/regex-assembly/123456.ra":  "##!> cmdline unix\ninnerroot\n##!<\n", "outer/a/b/c/d/e/": "", "outer/a/x/y/z/": "", "outer/p/q/r/s/": "",
+			"outer/rules/notes.conf": "x\n", "outer/a/b/c/d/file.txt": "x\n", "sibling/m/file.txt": "x\n",
 			"sibling/m/n/": "", "outer/a/b/regex-assembly/include/deep/": "", "outer/with blank/sub dir/": "", "outer/a/b/ünï/": "",
 			// a root whose regex-assembly is a symbolic link to a directory elsewhere, a root reached through a linked
 			// directory, and a dangling link called regex-assembly (contains nothing: not a root)
@@ -254,7 +267,9 @@ func C18(r *core.Run) {
 	}
 	starts := []string{"outer", "outer/a", "outer/a/b", "outer/a/b/c", "outer/a/b/c/d", "outer/a/b/c/d/e", "outer/a/x", "outer/a/x/y/z", "outer/p", "outer/p/q/r/s",
 		"outer/regex-assembly", "outer/regex-assembly/include", "outer/rules", "outer/with blank/sub dir", "outer/a/b/ünï", "outer/a/b/regex-assembly/include/deep", "sibling", "sibling/m/n", ".",
-		"outer/linked", "outer/linked/sub", "outer/linked/sub/deep", "outer/alias", "outer/alias/c/d", "outer/p/q", "outer/p/q/r", "standalone", "standalone/x"}
+		"outer/linked", "outer/linked/sub", "outer/linked/sub/deep", "outer/alias", "outer/alias/c/d", "outer/p/q", "outer/p/q/r", "standalone", "standalone/x",
+		// -d names a file (what an editor task passes): the search starts at the file
+		"outer/regex-assembly/123456.ra", "outer/a/b/regex-assembly/123456.ra", "outer/rules/notes.conf", "outer/a/b/c/d/file.txt", "sibling/m/file.txt"}
 	nearest := func(sb, start string) string {
 		cur := filepath.Clean(filepath.Join(sb, start))
 		for {
@@ -277,6 +292,9 @@ func C18(r *core.Run) {
 			for _, mode := range []string{"-d abs", "-d rel", "cwd", "-d . from start", "-d abs/"} {
 				if idx++; idx%n != shard {
 					continue
+				}
+				if st, err := os.Stat(filepath.Join(sb, start)); err == nil && !st.IsDir() && (mode == "cwd" || mode == "-d . from start" || mode == "-d abs/") {
+					continue // a file cannot be the working directory
 				}
 				var args []string
 				cwd := sb
@@ -345,7 +363,7 @@ func C18(r *core.Run) {
 		}
 		t.Materialise(sb)
 		want = strings.Replace(want, `"@rx op0"`, `"@rx `+token("123456.ra")+`"`, 1)
-		for k := 1; k <= 3; k++ {
+		for k := 1; k <= c18ChainLen; k++ {
 			want = strings.Replace(want, fmt.Sprintf(`"@rx op%d"`, k), `"@rx `+token(fmt.Sprintf("123456-chain%d.ra", k))+`"`, 1)
 		}
 		want = strings.Replace(want, `"@rx other"`, `"@rx `+token("123457.ra")+`"`, 1)
